@@ -44,6 +44,10 @@ SERVER_INFO = {
     "forgotten": (3, None, 1, 5), "mid-block": (0, None, None, None),
     "reserved-local": (1, 1, None, 3), "two-streams": (3, 1, None, 5),
     "ended": (1, None, 1, 3),
+    # stream 1 open; the application tried send_headers(3, ...) and push_stream(1, 3, ...): both refused for the id
+    "refused-opens": (1, 1, None, 3),
+    # local INITIAL_WINDOW_SIZE lowered to 10 and acknowledged; request 1 announces content-length 5 and is open
+    "small-window-cl": (1, None, None, 3),
 }
 CLIENT_INFO = {
     "fresh": (0, None, None, None), "handshaken": (0, None, None, None),
@@ -55,6 +59,9 @@ CLIENT_INFO = {
     # requests on 1 and 3, the application reset 1, a PUSH_PROMISE (1 -> 2) that raced the reset was refused: the peer
     # has used stream id 2
     "refused-push": (2, None, None, None),
+    # request 1, a stream promised on it (2) has delivered its whole response, the client has opened request 3 since:
+    # stream 2 - the highest id the server has used - ended normally and is no longer in the stream table
+    "pushed-ended-forgotten": (2, None, 2, None),
 }
 
 
@@ -64,6 +71,30 @@ def _build_extra(client, name, cfg):
         for o in (h.api("send_headers", 1, H.ni(H.REQ)), h.api("send_headers", 3, H.ni(H.REQ)), h.api("reset_stream", 1),
                   h.rx([wire.push_promise(1, 2, sb(H.REQ))])):
             assert o.kind == "ok", o.brief()
+        h.conn.data_to_send()
+        return h.conn
+    if name == "pushed-ended-forgotten":
+        h = H.Solo(True, **dict(cfg))
+        for o in (h.api("send_headers", 1, H.ni(H.REQ)), h.rx([wire.push_promise(1, 2, sb(H.REQ))]),
+                  h.rx([wire.headers(2, sb(H.RESP), es=True)]), h.api("send_headers", 3, H.ni(H.REQ))):
+            assert o.kind == "ok", o.brief()
+        h.cleanup()
+        assert 2 not in h.conn.streams
+        h.conn.data_to_send()
+        return h.conn
+    if name == "small-window-cl":
+        h = H.Solo(False, **dict(cfg))
+        for o in (h.rx([wire.settings([], ack=True)]), h.api("update_settings", {wire.S_INITIAL_WINDOW_SIZE: 10}),
+                  h.rx([wire.settings([], ack=True)]), h.rx([wire.headers(1, sb(H.REQ_POST + [(b"content-length", b"5")]))])):
+            assert o.kind == "ok", o.brief()
+        h.conn.data_to_send()
+        return h.conn
+    if name == "refused-opens":
+        h = H.Solo(False, **dict(cfg))
+        o = h.rx([wire.headers(1, sb(H.REQ_POST))])
+        assert o.kind == "ok", o.brief()
+        for o in (h.api("send_headers", 3, H.ni(H.RESP)), h.api("push_stream", 1, 3, H.ni(H.REQ))):
+            assert o.kind == "raise", o.brief()
         h.conn.data_to_send()
         return h.conn
     if name != "ended":
@@ -108,6 +139,14 @@ def templates(client, state):
         add("too-many-continuations", [PE, EYC], *[wire.continuation(1, b"", eh=False) for _ in range(65)])
         return T
     anysid = data_sid or (1 if hi or client else None)
+    if state == "small-window-cl":
+        # A window violation is a window violation whatever else is wrong with the frame: "FLOW_CONTROL_ERROR for window
+        # violations ... PROTOCOL_ERROR otherwise".  These DATA frames overrun the 10-byte stream window AND contradict
+        # the announced content-length of 5 (too long / stream ended short of it / only the padding overruns).
+        add("window-overrun+body-too-long", [FCE], wire.data(1, b"x" * 11))
+        add("window-overrun+body-too-long+es", [FCE], wire.data(1, b"x" * 11, es=True))
+        add("window-overrun-by-padding+short-body+es", [FCE], wire.data(1, b"xx", pad=9, es=True))
+        add("window-overrun-consistent-body", [FCE], wire.data(1, b"x" * 5, pad=5))
     # ---- frame size
     add("oversize-unknown-frame", [FSE], wire.raw(0x42, 0, 0, b"\0" * 16385))
     add("oversize-ping", [FSE], wire.raw(wire.PING, 0, 0, b"\0" * 16385))
